@@ -79,6 +79,12 @@ mod verif_kani_assumptions {
         while i < n { if v.len() < v.capacity() { v.push(i as u8); assert!(v.capacity() == cap); } i += 1; }
         let _ = v.pop();
         assert!(v.capacity() == cap);
+        // reserve_exact(k): contents unchanged, capacity >= len + k
+        let k: usize = kani::any();
+        kani::assume(k <= 4);
+        let len = v.len();
+        v.reserve_exact(k);
+        assert!(v.len() == len && v.capacity() >= len + k);
     }
     /// axiom_ext_clone: the derived Clone of Extension keeps id and data (optional 2-byte data; mandatory with 0..=2 data bytes)
     #[kani::proof]
